@@ -7,6 +7,8 @@ CONSTANTS
   CutRecs = 1
   PreKinds = {"none", "base"}
   Layouts = {"gaps", "canon"}
+  MultiPre = {"base"}
+  MultiLayouts = {"gaps"}
 INVARIANT GeneratedWellFormed
 INVARIANT ReadInvertsWrite
 INVARIANT CanonIdentity
